@@ -120,6 +120,11 @@ class Model:
             self.p.kill()
 
 
+class WrongShape(Exception):
+    """an array returned by the library does not have the shape that the basis / arguments determine (raised by harness helpers
+    before they would fail with a NumPy shape error; check.py reports it as a violation, not as a broken check)"""
+
+
 # ----------------------------------------------------------------------------------------------
 # shells
 class ShellSpec:
